@@ -52,9 +52,9 @@ def flat(l): return [x for t in l for x in t]
 # ----------------------------------------------------------------------------------------------- harness access
 class H:
     def __init__(self, hb, workdir): self.hb = hb; self.wd = workdir; self.calls = 0
-    def run(self, lines):
+    def run(self, lines, env=None):
         self.calls += len(lines)
-        rc, out, err = core.run_harness(self.hb, lines, self.wd, timeout=900)
+        rc, out, err = core.run_harness(self.hb, lines, self.wd, timeout=900, env=env)
         def sp(o):
             try: return core.fparse(o)
             except ValueError: return None, None      # noise on the harness' stdout
@@ -77,6 +77,27 @@ def cols(res):
 def bits(c): return [x.hex() for x in c]
 def same_bits(a, b): return len(a) == len(b) and all(x.hex() == y.hex() for x, y in zip(a, b))
 def colmax(c): return max([abs(x) for x in c] + [0.0])
+THREAD_REL = 1e-12
+THREAD_STATS = dict(p1_entries=0, p1_not_bitwise=0, p1_worst_rel=0.0, p0_entries=0)
+def same_col(spec, a, b):
+    """one thread: bitwise.  Several threads (spec['threads']>1, DipSourceMat only): the rows of the P0 unknowns
+    (operatorDipolePot: each triangle writes its own row -- owner computes) bitwise, the rows of the P1 unknowns
+    (operatorDipolePotDer: contributions of the triangles around a vertex summed inside `omp critical` in arrival order)
+    at the rounding class THREAD_REL*max|column|; zero columns exactly zero."""
+    if spec.get("threads", 1) <= 1 or spec["fn"] != "dsm": return same_bits(a, b)
+    if len(a) != len(b): return False
+    tri = set(spec.get("tri_rows", [])); sc = max(colmax(a), colmax(b))
+    for k, (x, y) in enumerate(zip(a, b)):
+        if k in tri or sc == 0:
+            THREAD_STATS["p0_entries"] += 1
+            if x.hex() != y.hex(): return False
+        else:
+            THREAD_STATS["p1_entries"] += 1
+            if x.hex() != y.hex():
+                THREAD_STATS["p1_not_bitwise"] += 1; THREAD_STATS["p1_worst_rel"] = max(THREAD_STATS["p1_worst_rel"], abs(x - y) / sc)
+            if not abs(x - y) <= THREAD_REL * sc: return False
+    return True
+
 def first_diff(a, b):
     for k, (x, y) in enumerate(zip(a, b)):
         if x.hex() != y.hex(): return k
@@ -90,9 +111,10 @@ def call_line(spec, dips, named=None):
     k = spec["fn"]
     if k == "dsm": return dsm_line(spec["mid"], spec["cfg"], spec.get("named", -1) if named is None else named, dips)
     if k == "ip": return ip_line(spec["mid"], spec.get("named", -1) if named is None else named, spec["pts"], dips)
+    if k == "eit": return core.fcase("c08", [8, spec["mid"], len(dips)], flat(dips))      # "dips" = electrode positions
     return meg_line(spec["sens"], dips)
 
-def fn_name(spec): return {"dsm": "DipSourceMat", "ip": "DipSource2InternalPotMat", "meg": "DipSource2MEGMat"}[spec["fn"]]
+def fn_name(spec): return {"dsm": "DipSourceMat", "ip": "DipSource2InternalPotMat", "meg": "DipSource2MEGMat", "eit": "EITSourceMat", "ssm": "SurfSourceMat"}[spec["fn"]]
 def cfg_name(spec): return (" integrator(%d,%d,%g)" % tuple(spec["cfg"][:3])) if spec["fn"] == "dsm" else ""
 
 def plan(spec):
@@ -115,6 +137,8 @@ def plan(spec):
         return [call_line(spec, ds, named=spec["dom"]), call_line(spec, ds, named=-1)]
     if r == "zero":
         return [call_line(spec, ds)]
+    if r == "star":        # SurfSourceMat on two source meshes that differ away from the listed source vertices
+        return [core.fcase("c08", [9, spec["mid"], spec["files"][0]], []), core.fcase("c08", [9, spec["mid"], spec["files"][1]], [])]
     raise ValueError(r)
 
 def judge(spec, res):
@@ -130,7 +154,7 @@ def judge(spec, res):
         if len(full) != n: out.append(("locality: wrong number of columns", "%s returned %d columns for %d dipoles" % (fn, len(full), n))); return out
         for i in range(n):
             s = M[1 + i]
-            if s is None or len(s) != 1 or not same_bits(s[0], full[i]):
+            if s is None or len(s) != 1 or not same_col(spec, s[0], full[i]):
                 k = first_diff(s[0], full[i]) if s else -1
                 out.append(("locality: column of a batch differs from the dipole alone",
                             "%s: column %d of the batch of %d dipoles differs from the column of dipole %d computed alone (first differing row %d: batch %r alone %r)"
@@ -138,10 +162,10 @@ def judge(spec, res):
                 spec["_bad"] = i
                 break
         re = M[1 + n]; p = spec["p"]
-        if re is None or len(re) != len(p) or any(not same_bits(re[k], full[p[k]]) for k in range(len(p))):
+        if re is None or len(re) != len(p) or any(not same_col(spec, re[k], full[p[k]]) for k in range(len(p))):
             out.append(("locality: re-indexed batch", "%s: the batch re-indexed by %s (permutation with repeats/omissions) does not give the re-indexed columns" % (fn, p)))
         a, b = M[2 + n], M[3 + n]; k = spec["cut"]
-        if a is None or b is None or len(a) + len(b) != n or any(not same_bits(x, y) for x, y in zip(a + b, full)):
+        if a is None or b is None or len(a) + len(b) != n or any(not same_col(spec, x, y) for x, y in zip(a + b, full)):
             out.append(("locality: split batch", "%s: computing dipoles [0,%d) and [%d,%d) separately does not give the columns of the whole batch" % (fn, k, k, n)))
         for i in spec.get("zero_cols", []):
             if any(x.hex() != (0.0).hex() for x in full[i]):
@@ -198,8 +222,22 @@ def judge(spec, res):
         if A is None or B is None:
             if (A is None) != (B is None): out.append(("named domain: exception", "%s: naming the domain throws / locating throws, the other does not" % fn))
             return out
-        if len(A) != len(B) or any(not same_bits(a, b) for a, b in zip(A, B)):
+        if len(A) != len(B) or any(not same_col(spec, a, b) for a, b in zip(A, B)):
             out.append(("named domain: differs from located", "%s: naming domain #%d explicitly gives other columns than letting the library locate the dipoles (which all lie in it)" % (fn, spec["dom"])))
+        return out
+    if r == "star":
+        A, B = M
+        spec["_threw"] = int(A is None) + int(B is None)
+        if A is None or B is None:
+            if (A is None) != (B is None): out.append(("star: exception", "SurfSourceMat throws for one of two source meshes that differ by one displaced vertex"))
+            else: out.append(("throws for a source surface inside a conductive domain", "SurfSourceMat throws (status %s) for a closed 12-vertex source surface that lies well inside a conductive domain of the head (before the fix 4b8856e: whenever that domain is bounded by a current-barrier mesh, e.g. a one-layer head)" % (res[0][0],)))
+            return out
+        spec["_nonzero"] = sum(1 for j in spec["same"] if colmax(A[j]) > 0); spec["_changed"] = sum(1 for j in spec["moved"] if not same_bits(A[j], B[j]))
+        for j in spec["same"]:
+            if not same_bits(A[j], B[j]):
+                k = first_diff(A[j], B[j])
+                out.append(("star: column depends on source triangles away from its vertex",
+                            "SurfSourceMat: source vertex %d is not on any triangle touching the displaced vertex %d, yet its column changes (row %d: %r vs %r)" % (j, spec["moved"][0], k, A[j][k], B[j][k]))); break
         return out
     if r == "zero":
         A = M[0]
@@ -315,6 +353,26 @@ def gen_model_specs(rng, h, mid, m, quick, rules=None, consts=None):
     for d in sorted(by_dom):
         inside = [tuple(pt) + mom() for pt, w in [x for x in by_dom[d] if x[0] not in pts][:3]]
         if inside and conds[d] != 0.0: specs.append(dict(sp, rel="named", dips=inside, dom=d))
+    # EITSourceMat: point electrodes next to the scalp; same locality relations (columns = electrodes)
+    R_ = m["info"]["outer_radius"]; c_ = m["info"].get("centre", (0, 0, 0))
+    els = [tuple(x) + (0.0, 0.0, 0.0) for x in models.sensors_on_sphere(rng, rng.randint(2, 5), c_, 1.01 * R_)]     # padded to 6 numbers, only 3 are sent
+    els = [e[:3] for e in els]
+    specs.append(dict(fn="eit", mid=mid, rel="locality", dips=els, p=reidx(len(els)), cut=rng.randint(1, len(els) - 1), zero_cols=[]))      # an empty electrode set is not a case here
+    # SurfSourceMat: a 12-vertex source surface inside a conductive domain, and the same surface with one vertex displaced
+    # along the surface normal: the columns of the source vertices that share no triangle with it must not change
+    cen = None
+    smp = tri_samples(m)
+    for pt, w in zip(cand, where):
+        if len(w) >= 1 and conds[w[0]] != 0.0 and far_from(pt, smp, 0.24 * R_): cen = pt; break
+    if cen is not None:
+        v0, t0 = models.icosphere(0); rad = 0.14 * R_
+        vs = models.transform(v0, rad, cen); mv = rng.randrange(12)
+        vs2 = list(vs); vs2[mv] = tuple(cen[k] + 1.25 * (vs[mv][k] - cen[k]) for k in range(3))
+        adj = {a for t in t0 if mv in t for a in t}
+        d = os.path.join(h.wd, "m%d" % mid)
+        models.write_tri(os.path.join(d, "src0.tri"), vs, t0); models.write_tri(os.path.join(d, "src1.tri"), vs2, t0)
+        specs.append(dict(fn="ssm", mid=mid, rel="star", files=[0, 1], same=[j for j in range(12) if j not in adj], moved=sorted(adj, key=lambda a: a != mv),
+                          dips=[], src=[[list(v) for v in vs], [list(v) for v in vs2], [list(t) for t in t0]]))
     # structure jobs: (model case, harness case, description)
     keys = {}; sd = []
     ridx = reidx(len(dips)) + list(range(len(dips)))
@@ -342,9 +400,28 @@ def gen_model_specs(rng, h, mid, m, quick, rules=None, consts=None):
         nd = rng.randrange(ndom)
         values.append((vline(1, CFGS[1], nd, [], []), dsm_line(mid, CFGS[1], nd, dips), "DipSourceMat named=%d" % nd))
         values.append((vline(2, CFGS[0], -1, [pt for pt, w in pk], [w for pt, w in pk]), ip_line(mid, -1, [pt for pt, w in pk], dips), "DipSource2InternalPotMat"))
+    # rows of the P0 unknowns (triangle indices below the size), for the several-thread comparison
+    tri_rows = set(); z = geo_ints; q = 2
+    for _d in range(ndom):
+        nb = z[q + 2]; q += 3
+        for _b in range(nb):
+            no = z[q + 1]; q += 2
+            for _o in range(no):
+                nt = z[q + 2]; q += 3
+                for _t in range(nt):
+                    if z[q] < geo_ints[0]: tri_rows.add(z[q])
+                    q += 5
+    threaded = []
+    for nth in (2, 4):
+        cfg = CFGS[1] if nth == 2 else CFGS[0]
+        threaded.append(dict(fn="dsm", rel="locality", mid=mid, cfg=list(cfg[:3]), dips=dips, p=reidx(len(dips)), cut=rng.randint(0, len(dips)), zero_cols=zero_cols, threads=nth, tri_rows=sorted(tri_rows)))
+        for d in sorted(by_dom)[:2]:
+            inside = [tuple(pt) + mom() for pt, w in by_dom[d][:3]]
+            if inside: threaded.append(dict(fn="dsm", rel="named", mid=mid, cfg=list(cfg[:3]), dips=inside, dom=d, threads=nth, tri_rows=sorted(tri_rows)))
+        threaded.append(dict(fn="ip", mid=mid, pts=pts, rel="locality", dips=dips, p=reidx(len(dips)), cut=rng.randint(0, len(dips)), zero_cols=zero_cols, threads=nth))
     info = dict(kind=m["info"].get("topology"), domains=ndom, size=geo_ints[0], dipoles=len(dips), zero_cond_dipoles=len(zero_cols),
                 dipoles_per_domain={str(d): len(v) for d, v in by_dom.items()})
-    return specs, structs, info, values
+    return specs, structs, info, values, threaded
 
 def meg_specs(rng, quick):
     specs = []
@@ -359,12 +436,12 @@ def meg_specs(rng, quick):
         specs.append(dict(sp, rel="add", dips=dips, q2=[models.random_unit(rng) for _ in dips]))
     return specs
 
-def run_specs(ck, h, specs, mdl_of):
+def run_specs(ck, h, specs, mdl_of, env=None):
     """batch-run the specs; returns counts; reports violations (with minimisation for locality)"""
     lines = []; idx = []
     for s in specs:
         l = plan(s); idx.append((len(lines), len(l))); lines += l
-    res = h.run(lines)
+    res = h.run(lines, env)
     nfail = 0
     for s, (a, n) in zip(specs, idx):
         fails = judge(s, res[a:a + n])
@@ -377,11 +454,12 @@ def run_specs(ck, h, specs, mdl_of):
                 for j in range(len(s["dips"])):
                     if j == i: continue
                     ps = dict(s, rel="pair", dips=[s["dips"][j], s["dips"][i]])
-                    if judge(ps, h.run(plan(ps))): best = ps; break
+                    if judge(ps, h.run(plan(ps), env)): best = ps; break
                 if best is not None:
                     rep["spec"] = {k: v for k, v in best.items() if not k.startswith("_") and k not in ("p", "cut", "zero_cols")}
                     text += "; minimised to the two dipoles %s" % (best["dips"],)
-            ck.violation("%s %s" % (fn_name(s), sig), text, rep)
+            if s.get("threads", 1) > 1: text += " [OMP_NUM_THREADS=%d: P0 rows bitwise, P1 rows at %g*max|column|]" % (s["threads"], THREAD_REL); rep["env"] = dict(OMP_NUM_THREADS=str(s["threads"]))
+            ck.violation("%s %s%s" % (fn_name(s), sig, " (several threads)" if s.get("threads", 1) > 1 else ""), text, rep)
     return nfail
 
 def main(replay=None):
@@ -401,7 +479,10 @@ def main(replay=None):
                 m = rp["model"]; m["meshes"] = [(n, [tuple(v) for v in vs], [tuple(t) for t in ts]) for n, vs, ts in m["meshes"]]
                 model_store[s.get("mid")] = m
                 models.write_model(m, os.path.join(h.wd, "m%d" % s["mid"]))
-            run_specs(ck, h, [s], mdl_of)
+                if s.get("src"):
+                    vs, vs2, t0 = s["src"]; d = os.path.join(h.wd, "m%d" % s["mid"])
+                    models.write_tri(os.path.join(d, "src0.tri"), [tuple(v) for v in vs], [tuple(t) for t in t0]); models.write_tri(os.path.join(d, "src1.tri"), [tuple(v) for v in vs2], [tuple(t) for t in t0])
+            run_specs(ck, h, [s], mdl_of, env=rp.get("env"))
         elif kind == "integrator":
             mo = core.run_model([rp["model_case"]]); ho = h.run([rp["harness_case"]])
             judge_integ(ck, [(rp["model_case"], rp["harness_case"], rp.get("what", {}))], mo, ho, h)
@@ -453,7 +534,10 @@ def main(replay=None):
         if g is None:
             ck.violation("harness: geometry", "generated model %d (%s) could not be loaded by the library" % (mid, kind), dict(kind="harness", model=m), found_input=False)
             continue
-        specs, structs, info, values = g; infos.append(info)
+        specs, structs, info, values, threaded = g; infos.append(info)
+        for nth in (2, 4):
+            ts = [t for t in threaded if t["threads"] == nth]
+            nspec_fail += run_specs(ck, h, ts, mdl_of, env=dict(OMP_NUM_THREADS=str(nth))); allspecs += ts
         judge_values(h, values, vstats)
         nspec_fail += run_specs(ck, h, specs, mdl_of); allspecs += specs
         for s in specs:
@@ -472,7 +556,7 @@ def main(replay=None):
 
     rel_dist = {}
     for s in allspecs:
-        k = "%s/%s" % (s["fn"], s["rel"]); rel_dist[k] = rel_dist.get(k, 0) + 1
+        k = "%s/%s%s" % (s["fn"], s["rel"], "/threads=%d" % s["threads"] if s.get("threads", 1) > 1 else ""); rel_dist[k] = rel_dist.get(k, 0) + 1
     ck.cov.update(evaluations=h.calls + len(ic), distinct_nontrivial=len(allspecs) + nstruct + istats["nontrivial"],
                   rule="distinct = relation instances (model x integrator x relation) + structure cases + integrator cases with at least one refinement call or a non-zero value; "
                        "heads: nested / split hemispheres / sibling inclusions / non-conductive inclusion at 42-vertex meshes, half of them moved+scaled; "
@@ -481,6 +565,10 @@ def main(replay=None):
                   samples=[json.dumps({k: v for k, v in allspecs[0].items() if k not in ("dips",)})[:300], ic[len(ic) // 2][1][:200]],
                   op_distribution=rel_dist, models=infos, integrator=istats, structure_cases=nstruct, structure_mismatches=struct_mis,
                   relation_failures=nspec_fail, traces_validated_against_impl=nstruct + len(ic) + vstats["agree_cases"],
+                  surf_source=dict(star_cases=sum(1 for s_ in allspecs if s_["rel"] == "star"), unchanged_columns_compared=sum(len(s_["same"]) for s_ in allspecs if s_["rel"] == "star"),
+                                   threw=sum(s_.get("_threw", 0) for s_ in allspecs if s_["rel"] == "star"), of_which_nonzero=sum(s_.get("_nonzero", 0) for s_ in allspecs if s_["rel"] == "star"), columns_that_did_change=sum(s_.get("_changed", 0) for s_ in allspecs if s_["rel"] == "star"),
+                                   note="SurfSourceMat on a 12-vertex source surface vs the same surface with one vertex displaced: columns of the source vertices sharing no triangle with it compared bitwise (ssm_column_star); the columns of the displaced vertex and its neighbours are expected to change"),
+                  several_threads=dict(THREAD_STATS, threads=[2, 4], asserted="DipSourceMat: P0 rows (operatorDipolePot, owner computes) bitwise, P1 rows (operatorDipolePotDer, omp critical accumulation in arrival order) within %g*max|column|, zero columns exactly zero; DipSource2InternalPotMat (no parallel loop): bitwise; DipSource2MEGMat: no parallel loop, one-thread run only" % THREAD_REL),
                   value_tie=dict(vstats, mismatches=vstats["mismatches"][:5], note="complete float model (Sources.DSM/DS2IP/DS2MEG + AdaptInt.integrate + Geom/Kernels.v) vs the real matrices, rounding class 1e-10*max|column|; informative: a mismatch alone is reported as a note, not as a violation (the theorems are parametric in the kernels)"),
                   additivity_worst_relative_discrepancy=worst_add,
                   additivity_note="adaptive: measured |A(q1+q2)-A(q1)-A(q2)|/max|column| against %g*tolerance -- empirical, not a theorem (adaptive_additive_refuted)" % ADD_ADAPTIVE_FACTOR)
